@@ -144,9 +144,16 @@ func allowIP(ipFilter *ipfilter.IPFilter, ip string) bool {
 	return ipFilter.Allow(ip)
 }
 
+// routeCacheKey is the key of the route cache. It is a struct rather than the
+// concatenation of its parts, so that requests with different hosts, methods
+// or paths never share a cache entry.
+type routeCacheKey struct {
+	host, method, path string
+}
+
 func (mi *muxInstance) getRouteFromCache(req *httpprot.Request) *route {
 	if mi.cache != nil {
-		key := stringtool.Cat(req.Host(), req.Method(), req.Path())
+		key := routeCacheKey{req.Host(), req.Method(), req.Path()}
 		if value, ok := mi.cache.Get(key); ok {
 			return value.(*route)
 		}
@@ -156,7 +163,7 @@ func (mi *muxInstance) getRouteFromCache(req *httpprot.Request) *route {
 
 func (mi *muxInstance) putRouteToCache(req *httpprot.Request, r *route) {
 	if mi.cache != nil {
-		key := stringtool.Cat(req.Host(), req.Method(), req.Path())
+		key := routeCacheKey{req.Host(), req.Method(), req.Path()}
 		mi.cache.Add(key, r)
 	}
 }
